@@ -241,18 +241,16 @@ impl ErrorRenderer for PrettyColorRenderer {
                 }
                 DiffLine::UnexpectedLines { lines } => {
                     lines.iter().for_each(|(line_index, line)| {
-                        let eol = (line.as_ref() as &[u8]).ends_in_newline();
-                        let line = if !eol {
-                            let mut line = line.clone();
-                            line.extend(b" (no-eol)");
-                            line
-                        } else {
-                            line.to_owned()
-                        };
-                        let line = outcome
-                            .escaping
-                            .escaped_expectation(&line)
-                            .higlight_tailing_spaces();
+                        let bytes: &[u8] = line.as_ref();
+                        let eol = bytes.ends_in_newline();
+                        let content = bytes.trim_newlines();
+                        let mut line = outcome.escaping.escaped_expectation(content);
+                        // the marker is no content of the line: it comes behind the
+                        // escaping, and the escaped kind ignores the line ending
+                        if !eol && !outcome.escaping.has_unprintable(content) {
+                            line.push_str(" (no-eol)");
+                        }
+                        let line = line.higlight_tailing_spaces();
                         last_error_index = Some(diff_index);
                         output.push_str(
                             &decorator
